@@ -89,7 +89,9 @@ BarSplitClauses(r) ==
           <<"requantised-durations-allowed", r.qnl => \A i \in 1 .. n : \A k \in 1 .. Len(r.bars[i]) :
                  \A x \in Notes(RelEvents(r.bars[i][k].rel)) : (x.e - x.s) \in DefaultNoteValues>>,
           <<"bars-closed", \A i \in 1 .. n : \A k \in 1 .. Len(r.bars[i]) : Alternates(RelEvents(r.bars[i][k].rel))>>,
-          <<"inputs-unchanged", r.tracksAfter = r.tracks /\ r.absAfter = r.absBefore>> >>
+          (* the stored order of the events of one tick in the absolute view is not content (reading sorts it): multiset there *)
+          <<"inputs-unchanged", /\ r.tracksAfter = r.tracks /\ Len(r.absAfter) = Len(r.absBefore)
+                                /\ \A i \in DOMAIN r.absBefore : BagOfSeq(r.absAfter[i]) = BagOfSeq(r.absBefore[i])>> >>
 InSplitDomain(r) ==
     LET n == Len(r.tracks)
         maxDur == MaxOf({RelDur(r.tracks[i]) : i \in 1 .. n}, 0)
